@@ -218,6 +218,8 @@ UNIX_PLAIN = ["/run/dbus/system_bus_socket", "/tmp/.X11-unix/X0", "/run/user/100
               "/tmp/" + "x" * 100]
 UNIX_SPACE = ["/tmp/my sock", "/tmp/a b c/s", "/run/My App/ipc.sock", "/tmp/x y", "/tmp/dir with  two spaces/s",
               "/tmp/tmpaa0y0lpu/my sock"]
+# white space the kernel prints verbatim: a leading blank or tab, a carriage return inside the name (any user may bind these)
+UNIX_ODD = [" lead", "\tTab", " ", "/tmp/a\rb", "a\r b c", "/tmp/cr\r", "/tmp/x\r\ny"[:7]]
 UNIX_ABSTRACT = ["@/tmp/.X11-unix/X0", "@abstract", "@", "@@", "@a@b", "@00012", "@/tmp/dbus-Zx1"]
 UNIX_ABSTRACT_SPACE = ["@abs name", "@my app socket"]
 
@@ -232,7 +234,7 @@ def gen_unix_path(rng):
             p = "/tmp/s%d.sock" % rng.randrange(10**6)
         return p
     if c < 8:
-        return rng.choice(UNIX_SPACE)
+        return rng.choice(UNIX_SPACE if rng.random() < 0.7 else UNIX_ODD)
     if c < 11:
         return rng.choice(UNIX_ABSTRACT)
     return rng.choice(UNIX_ABSTRACT_SPACE)
@@ -801,6 +803,13 @@ def run_case(case, acc):
                     viols.append(("invalid_kind_accepted", f"{form} kind={kind!r} returned {str(r)[:200]}"))
     acc.count("sockets_generated", len(case["socks"]))
     acc.count("unreadable_processes", sum(1 for p in case["procs"] if not p["readable"]))
+    # narrow the mechanism key when the table holds a UNIX name with white space the line parser may trip over
+    odd = [s_["path"] for s_ in case["socks"] if s_["proto"] == "unix" and s_.get("path")
+           and ("\r" in s_["path"] or s_["path"] != s_["path"].lstrip())]
+    if odd:
+        acc.count("tables_with_odd_whitespace_in_a_unix_name")
+        feat = ":unix_name_with_carriage_return" if any("\r" in o for o in odd) else ":unix_name_with_leading_whitespace"
+        viols = [(m + feat if ("unix" in m or m.startswith("exception:RuntimeError")) and not m.endswith(feat) else m, d) for m, d in viols]
     acc.case(case, nontrivial(case), viols)
 
 
